@@ -177,7 +177,12 @@ def oracle_hist(case, R):
     R.label("sig:" + lab_)
     kw = dict(ic=ic, stype=stype, peak=peak, rolloff=rolloff, eqsine=eqsine, time=time)
     sh, resp = call_srs(srs, arr, sr, freqs, Q, getresp=True, **kw)
-    sh_only = call_srs(srs, arr, sr, freqs, Q, getresp=False, **kw)
+    # (one case in eight computes the spectrum-only call with worker processes: the same record, in whatever
+    # container / dtype it came, must give the same bits)
+    par_ = case.get("par", "no")
+    sh_only = call_srs(srs, arr, sr, freqs, Q, getresp=False, parallel=par_, **(dict(kw, maxcpu=2) if par_ == "yes" else kw))
+    if par_ == "yes":
+        R.label("spectrum_call:parallel")
     if not np.array_equal(np.asarray(arr), sig[:, 0] if oneD else sig):
         R.fail("input_modified", "srs changed its input array")
 
@@ -303,7 +308,8 @@ def hist_cases(draw):
             "ratios": ratios, "f0": f0, "Q": draw(q_strategy()), "stype": stype, "ic": ic, "peak": peak,
             "time": time, "eqsine": draw(st.booleans()), "oneD": draw(st.booleans()),
             "rolloff": draw(st.sampled_from(["none", "none", None])), "mp": draw(st.integers(0, 3)) == 0,
-            "spack": draw(st.sampled_from(["same", "same", "int", "list", "fortran", "strided", "readonly"]))}
+            "spack": draw(st.sampled_from(["same", "same", "int", "list", "fortran", "strided", "readonly"])),
+            "par": draw(st.sampled_from(["no"] * 7 + ["yes"]))}
 
 
 # fixed signal family for the exhaustive option grid
